@@ -61,14 +61,23 @@ SCENARIOS = {
                    "node;bb_create;port writer;port reader;write 6;read", {"read": 6}),
 }
 
+# a live peer P (node + service + subscriber + publisher) shares the service with the victim and survives it
+SHARED = {
+    "shared_pubsub": {
+        "peer": "node;svc pubsub;port sub;port pub",
+        "victim": "mark setup;node;svc pubsub;port pub;port sub;send 5;recv;mark shutdown;drop all",
+    },
+}
+
 CLASS_BY_SUFFIX = [
     (".global_mgmt", "GM"), (".node_monitor_context", "TC"), (".node_monitor_owner_lock", "TO"), (".node_monitor", "TS"),
     (".details", "DF"), (".service_tag", "ST"), (".port_tag", "PT"), (".service", "SC"), (".dynamic", "DY"),
     (".data", "DS"), (".connection", "CN"), (".event_mgmt", "EM"), (".event", "EV"), (".blackboard_mgmt", "BM"),
     (".blackboard_data", "BD"),
 ]
-SERVICE_LEVEL = {"SC", "DY", "EM", "BM", "BD"}
-PORT_LEVEL = {"DS", "CN", "EV"}
+SERVICE_LEVEL = {"SC", "DY", "BM", "BD"}
+PORT_LEVEL = {"DS", "CN", "EV", "EM"}
+STATIC_FILES = {"DF", "ST", "PT", "SC"}     # static storage files: initialised = read-only (0400)
 NODE_LEVEL = {"DD", "DF", "TC", "TS", "TO"}
 PERSISTENT = {"GM", "ND", "SD"}
 SINGLETON = {"GM", "ND", "SD", "DD", "DF", "TC", "TS", "TO"}
@@ -92,11 +101,13 @@ class Domain:
         self.ids = {}        # path -> abstract id
         self.count = {}      # class -> number of ids
 
-    def classify(self, path):
+    def classify(self, path, known_only=False):
         """path -> (class, abstract id); ids are numbered per class in order of first appearance"""
         if path in self.ids:
             rid = self.ids[path]
             return re.sub(r"\d+$", "", rid), rid
+        if known_only:
+            return "FOREIGN", "FOREIGN"
         rel = path[len(self.root) + 1:] if path.startswith(self.root + "/") else path
         cls = None
         if path == self.root:
@@ -153,13 +164,15 @@ class Domain:
         shutil.rmtree(self.dir, ignore_errors=True)
 
 
-def abstract_steps(dom, recs):
+def abstract_steps(dom, recs, known_only=False):
     """sysshim records of one process -> abstract steps [{n, op, r, cls, call}] (state-changing calls only)"""
     out = []
     for r in recs:
         if r["k"] != "sys" or r["c"] != "s":
             continue
-        cls, rid = dom.classify(r["path"].split(" -> ")[0])
+        cls, rid = dom.classify(r["path"].split(" -> ")[0], known_only)
+        if cls == "FOREIGN":
+            continue
         ok = r["ret"] >= 0
         call = r["call"]
         if call in ("open", "shm_open"):
@@ -167,7 +180,10 @@ def abstract_steps(dom, recs):
         elif call in ("mkdir", "bind"):
             op = "create" if ok else "probe"
         elif call in ("fchmod", "chmod"):
-            op = "init" if r["mode"] == 0o200 else "final"
+            if cls in STATIC_FILES:
+                op = "final" if r["mode"] == 0o400 else "init"
+            else:
+                op = "init" if r["mode"] == 0o200 else "final"
         elif call == "fcntl":
             op = "lock" if ok else "probe"
         elif call in ("remove", "unlink", "shm_unlink", "rmdir"):
@@ -219,12 +235,32 @@ def tags_of(dom, steps):
     return out
 
 
+def start_peer(dom, script, tag="P", syslog=None):
+    p = shimctl.Proc(dom.argv, dom.roots, tag, syslog, "s", stderr_path=os.path.join(dom.dir, "stderr.txt"))
+    answers = []
+    for cmd in script.split(";"):
+        p.send(cmd)
+        answers.append(p.wait_out(WATCHDOG))
+    return p, answers
+
+
+def ask(p, cmd):
+    p.send(cmd)
+    return p.wait_out(WATCHDOG)
+
+
 def extract(ctx, name):
-    victim, exercise, _ = SCENARIOS[name]
+    shared = name in SHARED
+    victim = SHARED[name]["victim"] if shared else SCENARIOS[name][0]
     base = ctx.path("dry", "x")[:-2]
     dom = Domain(base, name)
     drift = []
+    peer = None
     try:
+        if shared:
+            peer, pa = start_peer(dom, SHARED[name]["peer"])
+            if any(a is None or a.get("r") != "Ok" for a in pa):
+                raise vp.ToolError(f"peer set-up of scenario {name} failed: {pa}")
         log = os.path.join(dom.dir, "victim.ndjson")
         rc, outs, hang = run_agent(dom, "V", victim, log)
         if rc != 0 or hang or any(o.get("r") != "Ok" for o in outs):
@@ -242,25 +278,41 @@ def extract(ctx, name):
         for s in steps:
             if s["cls"] == "UNKNOWN":
                 drift.append(f"{name}: system call on a path of unknown kind: {s}")
+        if peer:
+            peer.close()
+            peer = None
         # second dry run: the victim is killed at the end of its set-up, the survivor's cleanup is logged
         dom2 = Domain(base, name + "-cleanup")
+        peer2 = None
         try:
+            slog = os.path.join(dom2.dir, "survivor.ndjson")
+            if shared:
+                peer2, _ = start_peer(dom2, SHARED[name]["peer"], syslog=slog)
             vlog = os.path.join(dom2.dir, "victim.ndjson")
             run_agent(dom2, "V", victim, vlog, kill_at=marks["shutdown"])
             abstract_steps(dom2, shimctl.read_syslog(vlog))          # same numbering as the first run
-            slog = os.path.join(dom2.dir, "survivor.ndjson")
-            rc2, outs2, hang2 = run_agent(dom2, "S", "list;cleanup;list", slog)
-            csteps = abstract_steps(dom2, shimctl.read_syslog(slog))
+            if shared:
+                outs2 = [ask(peer2, "list"), ask(peer2, "cleanup"), ask(peer2, "list")]
+                rc2, hang2 = 0, any(o is None for o in outs2)
+                dead = [x for x in (outs2[1] or {}).get("nodes", []) if x["s"] == "Dead"]
+            else:
+                rc2, outs2, hang2 = run_agent(dom2, "S", "list;cleanup;list", slog)
+                dead = (outs2[1].get("nodes", []) if len(outs2) > 1 else [])
+            csteps = abstract_steps(dom2, shimctl.read_syslog(slog), known_only=True)
             cleanup_seq = [s["r"] for s in csteps if s["op"] == "remove"]
-            if hang2 or rc2 != 0 or not outs2 or outs2[1].get("nodes", [{}])[0].get("c") != "Ok(())":
+            if hang2 or rc2 != 0 or not dead or dead[0].get("c") != "Ok(())":
                 drift.append(f"{name}: dry-run cleanup of a fully set-up dead node did not succeed: {outs2}")
         finally:
+            if peer2:
+                peer2.close()
             dom2.destroy()
         tags = tags_of(dom, steps)
         res = sorted(set(tags) - {"ROOT"})
         return {"name": name, "steps": steps, "K": k_total, "marks": marks, "cleanup_seq": cleanup_seq,
-                "tags": tags, "res": res, "ids": dict(dom.ids)}, drift
+                "tags": tags, "res": res, "ids": dict(dom.ids), "shared": shared}, drift
     finally:
+        if peer:
+            peer.close()
         dom.destroy()
 
 
@@ -271,7 +323,7 @@ def tla_str_set(xs):
     return "{" + ", ".join(f'"{x}"' for x in sorted(xs)) + "}"
 
 
-def model(ctx, ext, shared=False, ccrash=True):
+def model(ctx, ext, shared=False, ccrash=True, ncleaners=2):
     name = f"MC_{ext['name']}{'_shared' if shared else ''}"
     d = ctx.path("mc", name, "x")[:-2]
     res = [r for r in ext["res"] if not r.startswith("UNKNOWN")]
@@ -279,16 +331,18 @@ def model(ctx, ext, shared=False, ccrash=True):
     steps = ", ".join(f'[op |-> "{op_map.get(s["op"], "other")}", r |-> "{s["r"]}"]' for s in ext["steps"])
     tagof = " @@ ".join(f'("{r}" :> {tla_str_set(ext["tags"].get(r, []))})' for r in res)
     persistent = [r for r in res if re.sub(r"\d+$", "", r) in PERSISTENT]
-    slevel = [r for r in res if re.sub(r"\d+$", "", r) in SERVICE_LEVEL | {"ST"}]
+    slevel = [r for r in res if re.sub(r"\d+$", "", r) in SERVICE_LEVEL]
     cseq = ", ".join(f'"{r}"' for r in ext["cleanup_seq"] if r in res)
     with open(os.path.join(d, name + ".tla"), "w") as f:
         f.write(f"---- MODULE {name} ----\nEXTENDS CrashCleanup\n"
                 f"StepsVal == << {steps} >>\nCleanupSeqVal == << {cseq} >>\nResVal == {tla_str_set(res)}\n"
                 f"TagOfVal == {tagof}\nPersistentVal == {tla_str_set(persistent)}\n"
-                f"ServiceLevelVal == {tla_str_set(slevel)}\n====\n")
+                f"ServiceLevelVal == {tla_str_set(slevel)}\n"
+                f"StaticConfigsVal == {tla_str_set([r for r in res if r.startswith('SC')])}\n====\n")
     cfg = ("SPECIFICATION Spec\nCONSTANTS\n Steps <- StepsVal\n CleanupSeq <- CleanupSeqVal\n Res <- ResVal\n"
            " TagOf <- TagOfVal\n Persistent <- PersistentVal\n ServiceLevel <- ServiceLevelVal\n"
-           f" Shared = {'TRUE' if shared else 'FALSE'}\n Cleaners = {{\"K1\", \"K2\"}}\n"
+           " StaticConfigs <- StaticConfigsVal\n"
+           f" Shared = {'TRUE' if shared else 'FALSE'}\n Cleaners = {tla_str_set(['K1', 'K2'][:ncleaners])}\n"
            f" CleanerMayCrash = {'TRUE' if ccrash else 'FALSE'}\nCHECK_DEADLOCK FALSE\n")
     invs = ["CleanAfterCleanup", "SurvivorsIntact", "DeadIsReportedDeadOrAbsent", "CleanupAlwaysEnabled"]
     with open(os.path.join(d, name + ".cfg"), "w") as f:
@@ -298,39 +352,36 @@ def model(ctx, ext, shared=False, ccrash=True):
     return d, name, invs
 
 
-def run_model(ctx, ext, shared=False):
-    d, name, invs = model(ctx, ext, shared)
-    failed = []
-    remaining = list(invs)
-    # which clauses does TLC refute for the extracted step order?  (one run per refuted clause, at most 4)
-    for _ in range(len(invs) + 1):
-        with open(os.path.join(d, name + ".cfg")) as f:
-            cfg = f.read()
-        cfg = re.sub(r"INVARIANTS .*\n", "INVARIANTS " + " ".join(remaining) + "\n", cfg) if remaining else \
-            re.sub(r"INVARIANTS .*\n", "", cfg)
-        with open(os.path.join(d, name + ".cfg"), "w") as f:
-            f.write(cfg)
-        res = vp.tlc(d, name, workers=4, timeout=900, libs=["process"])
-        vp.record_tlc(ctx, f"CrashCleanup[{ext['name']}{' shared' if shared else ''}; {' '.join(remaining) or 'no invariant'}]", res)
-        if res.timed_out:
-            raise vp.ToolError(f"TLC timed out on {name}")
-        if res.violated in remaining:
-            failed.append(res.violated)
-            remaining.remove(res.violated)
-            continue
-        if not res.ok:
-            raise vp.ToolError(f"TLC failed on {name}: {res.violated} {res.error}\n{res.output[-3000:]}")
-        vp.check_action_coverage(res, ["VStep", "VCrash", "CStart", "CRemove", "CDone", "CCrash"], name)
-        break
-    res = vp.tlc(d, name, cfg=name + "_predict.cfg", workers=1, timeout=900, libs=["process"], coverage=False)
-    vp.record_tlc(ctx, f"CrashCleanup[{ext['name']}{' shared' if shared else ''}; predictions]", res, count=False)
-    if not res.ok:
-        raise vp.ToolError(f"TLC prediction run failed on {name}: {res.violated} {res.error}\n{res.output[-3000:]}")
+def run_model(ctx, ext, shared=False, double_crash=True):
+    """One TLC run: SurvivorsIntact and DeadIsReportedDeadOrAbsent as invariants; CleanAfterCleanup and
+    CleanupAlwaysEnabled are evaluated on every state and every refutation is printed with its crash point
+    (REFUTED lines); the predicted leftovers per crash point are printed as PREDICT lines."""
+    d, name, invs = model(ctx, ext, shared, ccrash=double_crash, ncleaners=2 if double_crash else 1)
+    with open(os.path.join(d, name + ".cfg")) as f:
+        cfg = f.read()
+    with open(os.path.join(d, name + ".cfg"), "w") as f:
+        f.write(re.sub(r"INVARIANTS .*\n", "INVARIANTS Predict Refutations SurvivorsIntact DeadIsReportedDeadOrAbsent\n", cfg))
+    res = vp.tlc(d, name, workers=4, timeout=1200, libs=["process"])
+    vp.record_tlc(ctx, f"CrashCleanup[{ext['name']}{' shared' if shared else ''}]", res)
+    if res.timed_out:
+        raise vp.ToolError(f"TLC timed out on {name}")
+    failed = {}
+    if res.violated in ("SurvivorsIntact", "DeadIsReportedDeadOrAbsent"):
+        failed[res.violated] = [("?", 0)]
+    elif not res.ok:
+        raise vp.ToolError(f"TLC failed on {name}: {res.violated} {res.error}\n{res.output[-3000:]}")
+    else:
+        vp.check_action_coverage(res, ["VStep", "VCrash", "CStart", "CRemove", "CDone"] + (["CCrash"] if double_crash else []), name)
     pred = {}
     for line in res.prints:
         if line.startswith('<<"PREDICT", "'):
             pc, cc, stale, verdict = json.loads(line[len('<<"PREDICT", "'):-3].encode().decode("unicode_escape"))
             pred.setdefault((pc, 1 if cc else 0), set()).add((tuple(sorted(stale)), verdict))
+        elif line.startswith('<<"REFUTED", "'):
+            inv, pc, cc, stale, verdict = json.loads(line[len('<<"REFUTED", "'):-3].encode().decode("unicode_escape"))
+            failed.setdefault(inv, [])
+            if (pc, 1 if cc else 0) not in failed[inv]:
+                failed[inv].append((pc, 1 if cc else 0))
     return failed, pred
 
 
@@ -375,8 +426,8 @@ def kill_run(ctx, ext, n, second=None, base=None):
         pre = dom.snapshot()
         out["pre"] = {dom.classify(p)[1]: v for p, v in pre.items()}
         out["zero_size_shm"] = sorted(dom.classify(p)[1] for p, (sz, md) in pre.items() if p.startswith("/dev/shm/") and sz == 0)
-        out["uninitialized"] = sorted(dom.classify(p)[1] for p, (sz, md) in pre.items()
-                                      if md == 0o200 and not os.path.isdir(p))
+        out["uninitialized"] = sorted(dom.classify(p)[1] for p, (sz, md) in pre.items() if not os.path.isdir(p)
+                                      and (md != 0o400 if dom.classify(p)[0] in STATIC_FILES else md == 0o200))
         # ---- survivor(s)
         script = "list;cleanup;list;" + exercise
         answers = []
@@ -429,48 +480,156 @@ def kill_run(ctx, ext, n, second=None, base=None):
         dom.destroy()
 
 
+def kill_run_shared(ctx, ext, n, base):
+    """A live peer P shares the service with the victim; the victim is killed before its n-th call; P lists, removes
+    the stale resources, keeps using its ports and continues with a new peer Q; finally Q and P shut down orderly."""
+    name = ext["name"]
+    dom = Domain(base, f"{name}-k{n}")
+    out = {"scenario": name, "n": n, "second": None, "problems": [], "hang": None, "answers": []}
+    P = Q = None
+    try:
+        P, pa = start_peer(dom, SHARED[name]["peer"])
+        vlog = os.path.join(dom.dir, "victim.ndjson")
+        rc, vouts, vhang = run_agent(dom, "V", SHARED[name]["victim"], vlog, kill_at=n)
+        vrecs = shimctl.read_syslog(vlog)
+        vsteps = abstract_steps(dom, vrecs)
+        kill = [r for r in vrecs if r["k"] == "kill"]
+        out["killed_at"] = None
+        if kill:
+            cls, rid = dom.classify(kill[0]["path"].split(" -> ")[0])
+            out["killed_at"] = f"{kill[0]['call']}({rid})"
+        out["prefix_ok"] = [(s["op"], s["r"]) for s in ext["steps"][:n - 1]] == [(s["op"], s["r"]) for s in vsteps][:n - 1]
+        pre = dom.snapshot()
+        out["zero_size_shm"] = sorted(dom.classify(p, True)[1] for p, (sz, md) in pre.items() if p.startswith("/dev/shm/") and sz == 0)
+        out["uninitialized"] = sorted(dom.classify(p, True)[1] for p, (sz, md) in pre.items() if not os.path.isdir(p)
+                                      and dom.classify(p, True)[0] != "FOREIGN"
+                                      and (md != 0o400 if dom.classify(p, True)[0] in STATIC_FILES else md == 0o200))
+
+        def step(proc, who, cmd):
+            try:
+                a = ask(proc, cmd)
+            except shimctl.Hang:
+                a = None
+            if a is None:
+                out["hang"] = f"{who} in `{cmd}`"
+                out["problems"].append(("hang", f"{who}_{cmd.split()[0]}"))
+                raise StopIteration
+            out["answers"].append(dict(a, who=who))
+            if a.get("r") != "Ok":
+                out["problems"].append(("unusable", f"{who}_{a.get('ev')}:{a.get('r')}"))
+            return a
+        try:
+            l1 = step(P, "P", "list")
+            states = sorted(x["s"] for x in l1.get("nodes", []))
+            out["listed"] = states
+            if states not in (["Alive"], ["Alive", "Dead"]):
+                out["problems"].append(("reported", "+".join(states)))
+            cl = step(P, "P", "cleanup")
+            for x in cl.get("nodes", []):
+                if x["s"] == "Dead" and x["c"] != "Ok(())":
+                    out["problems"].append(("cleanup_fails", re.sub(r"^Err\((.*)\)$", r"\1", x["c"])))
+            l2 = step(P, "P", "list")
+            if sorted(x["s"] for x in l2.get("nodes", [])) != ["Alive"]:
+                out["problems"].append(("still_listed", "+".join(sorted(x["s"] for x in l2.get("nodes", [])))))
+            step(P, "P", "send 11")
+            got = []
+            for _ in range(6):
+                a = step(P, "P", "recv")
+                if a.get("v") is None:
+                    break
+                got.append(a["v"])
+            if 11 not in got or any(v not in (5, 11) for v in got):
+                out["problems"].append(("corrupted", f"P_recv={got}"))
+            Q = shimctl.Proc(dom.argv, dom.roots, "Q", None, "s", stderr_path=os.path.join(dom.dir, "stderr.txt"))
+            for cmd in ("node", "svc pubsub", "port sub"):
+                step(Q, "Q", cmd)
+            step(P, "P", "send 12")
+            a = step(Q, "Q", "recv")
+            if a.get("v") != 12:
+                out["problems"].append(("corrupted", f"Q_recv={a.get('v')}"))
+            step(Q, "Q", "port pub")
+            step(Q, "Q", "send 13")
+            got = []
+            for _ in range(6):
+                a = step(P, "P", "recv")
+                if a.get("v") is None:
+                    break
+                got.append(a["v"])
+            if 13 not in got or any(v not in (12, 13) for v in got):
+                out["problems"].append(("corrupted", f"P_recv2={got}"))
+            step(Q, "Q", "drop all")
+            step(P, "P", "drop all")
+        except StopIteration:
+            pass
+        for pr in (Q, P):
+            if pr:
+                pr.close()
+        Q = P = None
+        post = dom.snapshot()
+        left = sorted(dom.classify(p)[1] for p in post)
+        out["left"] = [r for r in left if re.sub(r"\d+$", "", r) not in PERSISTENT]
+        out["left_unknown"] = [p for p in post if dom.classify(p)[0] == "UNKNOWN"]
+        return out
+    finally:
+        for pr in (Q, P):
+            if pr:
+                pr.close()
+        dom.destroy()
+
+
 def phase_of(ext, n):
     return "shutdown" if n >= ext["marks"].get("shutdown", 10 ** 9) else "setup"
 
 
 def judge(ext, pred, o):
-    """Compares one real outcome with the model's prediction. Returns a list of (kind, signature, text)."""
+    """Compares one real outcome with the model's prediction; reports the PRIMARY deviation of the run (a hang, a
+    refused cleanup, a leftover) - what follows from it (service unusable, still listed) goes into the text."""
     n = o["n"]
-    findings = []
     ph = phase_of(ext, n)
     key = (n if o.get("killed_at") else 0, 1 if o.get("second_killed") else 0)
     p = pred.get(key) or pred.get((key[0], 0)) or set()
     predicted = {tuple(sorted(st)) for st, v in p}
     real = tuple(sorted(o["left"]))
-    hang = [x for x in o["problems"] if x[0] == "hang"]
+    probs = o["problems"]
+    conseq = "; ".join(f"{k} {d}" for k, d in probs) or "survivor API fully usable"
+    where = f"victim killed before {o.get('killed_at')}" + (f", first cleaner killed before its call {o['second']}" if o.get("second") else "")
+    hang = [x for x in probs if x[0] == "hang"]
     if hang:
         why = "zero_size_shm" if o.get("zero_size_shm") else "other"
-        findings.append(("V1", f"hang:{hang[0][1]}:{why}",
-                         f"survivor hangs in `{hang[0][1]}` (> {WATCHDOG}s, all peers finished); zero-sized shm objects "
-                         f"left by the victim: {o.get('zero_size_shm')}"))
-        return findings
-    for kind, det in o["problems"]:
-        if kind == "hang":
-            continue
+        return [("V1", f"hang:{hang[0][1]}:{why}",
+                 f"survivor hangs in `{hang[0][1]}` (> {WATCHDOG}s after every peer had finished); zero-sized shm objects "
+                 f"left by the victim: {o.get('zero_size_shm')} ({where})")]
+    crash = [x for x in probs if x[0] == "crash"]
+    if crash:
+        return [("V1", f"survivor_crash:{collapse(o.get('uninitialized', []))}@{ph}", f"survivor died {crash[0][1]} ({where})")]
+    cf = [x for x in probs if x[0] == "cleanup_fails"]
+    if cf:
         un = collapse(o.get("uninitialized", []))
-        findings.append(("V1", f"{kind}:{det}:{un}@{ph}",
-                         f"{kind} {det} (victim killed before {o.get('killed_at')}; uninitialised objects: "
-                         f"{o.get('uninitialized')})"))
+        return [("V1", f"cleanup_fails:{cf[0][1]}:{un}@{ph}",
+                 f"removing the stale resources of the dead node fails with {cf[0][1]} every time; uninitialised objects "
+                 f"left by the victim: {o.get('uninitialized')}; leftovers {list(real)}; {conseq} ({where})")]
+    rep = [x for x in probs if x[0] == "reported"]
+    if rep:
+        return [("V1", f"reported:{rep[0][1]}@{ph}", f"dead node reported as {rep[0][1]}; leftovers {list(real)} ({where})")]
     if real:
         if real in predicted:
-            findings.append(("V2", f"leak:{collapse(real)}@{ph}",
-                             f"leftover {list(real)} after a completed survivor cleanup, as TLC predicts for this crash "
-                             f"point (victim killed before {o.get('killed_at')})"))
-        else:
-            findings.append(("V1", f"leak_unpredicted:{collapse(real)}@{ph}",
-                             f"leftover {list(real)} (model predicts {sorted(predicted)}; victim killed before "
-                             f"{o.get('killed_at')})"))
-    elif predicted and () not in predicted:
-        findings.append(("MODEL", f"model_pessimistic:{collapse(sorted(predicted)[0])}@{ph}",
-                         f"model predicts leftovers {sorted(predicted)} but the real system is clean"))
+            return [("V2", f"leak:{collapse(real)}@{ph}",
+                     f"leftover {list(real)} after the survivor's cleanup, as TLC predicts for this crash point from the "
+                     f"extracted step order; consequences: {conseq} ({where})")]
+        return [("V1", f"leak_unpredicted:{collapse(real)}@{ph}",
+                 f"leftover {list(real)} after the survivor's cleanup (model predicts {sorted(predicted)}); consequences: "
+                 f"{conseq} ({where})")]
     if o.get("left_unknown"):
-        findings.append(("V1", f"leak_unknown@{ph}", f"leftover of unknown kind {o['left_unknown']}"))
-    return findings
+        return [("V1", f"leak_unknown@{ph}", f"leftover of unknown kind {o['left_unknown']} ({where})")]
+    other = [x for x in probs if x[0] in ("unusable", "corrupted", "still_listed")]
+    if other:
+        un = collapse(o.get("uninitialized", []))
+        return [("V1", f"{other[0][0]}:{other[0][1]}:{un}@{ph}", f"{conseq}; nothing is left over; uninitialised objects left "
+                 f"by the victim: {o.get('uninitialized')} ({where})")]
+    if predicted and () not in predicted:
+        return [("MODEL", f"model_pessimistic:{collapse(sorted(predicted)[0])}@{ph}",
+                 f"model predicts leftovers {sorted(predicted)} but the real system is clean")]
+    return []
 
 
 def run(ctx):
@@ -488,7 +647,7 @@ def run(ctx):
         "resources are classified by path pattern; persistent by design: nodes/ and services/ directories, the "
         "global management segment",
     ]
-    names = list(SCENARIOS)
+    names = list(SCENARIOS) + list(SHARED)
     exts, preds, model_failed = {}, {}, {}
     drift_any = False
     for nm in names:
@@ -501,11 +660,12 @@ def run(ctx):
     ctx.coverage["extracted"] = {nm: {"K": e["K"], "steps": [f"{s['op']}({s['r']})" for s in e["steps"]][:400],
                                       "cleanup_order": e["cleanup_seq"]} for nm, e in exts.items()}
     # ---- TLC on the extracted step sequences
-    with concurrent.futures.ThreadPoolExecutor(max_workers=3) as ex:
-        futs = {nm: ex.submit(run_model, ctx, exts[nm]) for nm in (names if not quick else ["node", "pubsub", "event"])}
+    with concurrent.futures.ThreadPoolExecutor(max_workers=6) as ex:
+        futs = {nm: ex.submit(run_model, ctx, exts[nm], exts[nm]["shared"], not quick) for nm in names}
         for nm, f in futs.items():
             model_failed[nm], preds[nm] = f.result()
-    ctx.coverage["model_refuted"] = {nm: v for nm, v in model_failed.items()}
+    ctx.coverage["model_refuted"] = {nm: {inv: f"{len(pts)} crash points, e.g. {sorted(pts)[:6]}" for inv, pts in v.items()}
+                                     for nm, v in model_failed.items()}
     # ---- which crash points
     jobs = []
     for nm in names:
@@ -513,20 +673,26 @@ def run(ctx):
         if nm in ("node", "pubsub") or not quick:
             pts = list(range(1, k + 2))
         else:
-            pts = sorted(rng.sample(range(1, k + 1), 14 if nm in preds else 8))
+            pts = sorted(rng.sample(range(1, k + 1), 12))
         for n in pts:
             jobs.append((nm, n, None))
+    # crash points that leave a zero-sized object behind make the survivor wait for the watchdog: start them first
+    def slow(j):
+        st = exts[j[0]]["steps"]
+        return 0 if 1 <= j[1] - 1 < len(st) and st[j[1] - 1]["op"] == "size" else 1
     if not quick:
-        for nm in names:
+        for nm in SCENARIOS:
             ext = exts[nm]
             n0 = ext["marks"]["shutdown"]
             klen = len(ext["cleanup_seq"]) * 4 + 30
             for n in sorted(set([n0] + rng.sample(range(1, ext["K"] + 1), 6))):
                 for c in range(1, klen, 1 if n == n0 else 7):
                     jobs.append((nm, n, c))
+    jobs.sort(key=slow)
     outcomes = []
     with concurrent.futures.ThreadPoolExecutor(max_workers=10) as ex:
-        futs = [ex.submit(kill_run, ctx, exts[nm], n, c, base) for (nm, n, c) in jobs]
+        futs = [ex.submit(kill_run_shared, ctx, exts[nm], n, base) if nm in SHARED else
+                ex.submit(kill_run, ctx, exts[nm], n, c, base) for (nm, n, c) in jobs]
         for f in futs:
             outcomes.append(f.result())
     shutil.rmtree(base, ignore_errors=True)
@@ -554,13 +720,19 @@ def run(ctx):
         for kind, sig, text in fs:
             by_sig.setdefault(sig, []).append((kind, o, text))
     ctx.coverage["kill_runs"] = {"total": len(outcomes), "clean_and_usable": clean,
-                                 "per_scenario": {nm: sum(1 for o in outcomes if o["scenario"] == nm) for nm in names}}
+                                 "per_scenario": {nm: sum(1 for o in outcomes if o["scenario"] == nm) for nm in names},
+                                 "with_second_crash_during_cleanup": sum(1 for o in outcomes if o.get("second"))}
     ctx.coverage["signatures"] = {s: len(v) for s, v in sorted(by_sig.items())}
+    with open(ctx.path("outcomes.json"), "w") as f:
+        json.dump([dict(o, findings=judge(exts[o["scenario"]], preds.get(o["scenario"], {}), o),
+                        predicted=sorted(preds.get(o["scenario"], {}).get((o["n"], 0), []))) for o in outcomes], f, default=str)
     for sig, lst in sorted(by_sig.items()):
         kind, o, text = lst[0]
         if kind == "MODEL":
-            raise vp.ToolError(f"CrashCleanup.tla predicts leftovers the real system does not have ({sig}: {text}; "
-                               f"scenario {o['scenario']} n={o['n']}): fix the specification")
+            allm = [(s, v[0][1]["scenario"], sorted(x[1]["n"] for x in v)) for s, v in sorted(by_sig.items()) if v[0][0] == "MODEL"]
+            raise vp.ToolError(f"CrashCleanup.tla predicts leftovers the real system does not have: {allm}; e.g. {text} "
+                               f"(scenario {o['scenario']} n={o['n']}, killed before {o.get('killed_at')}): fix the "
+                               f"specification")
         pts = sorted({(x[1]["scenario"], x[1]["n"]) + ((x[1]["second"],) if x[1]["second"] else ()) for x in lst})
         what = (f"{'TLC-predicted and confirmed' if kind == 'V2' else 'observed on real processes'}: {text}; "
                 f"{len(lst)} crash points: {pts[:12]}{'...' if len(pts) > 12 else ''}")
@@ -606,7 +778,10 @@ def replay(ctx, path):
     print(json.dumps({k: body.get(k) for k in ("what", "signature", "scenario", "kill_at", "second", "killed_before")}, indent=1))
     vp.cargo_build(["drv-crash"])
     ext, _ = extract(ctx, body["scenario"])
-    o = kill_run(ctx, ext, body["kill_at"], body.get("second"), ctx.path("kill", "x")[:-2])
+    if body["scenario"] in SHARED:
+        o = kill_run_shared(ctx, ext, body["kill_at"], ctx.path("kill", "x")[:-2])
+    else:
+        o = kill_run(ctx, ext, body["kill_at"], body.get("second"), ctx.path("kill", "x")[:-2])
     print(json.dumps({k: o.get(k) for k in ("killed_at", "listed", "problems", "left", "zero_size_shm", "uninitialized",
                                             "answers")}, indent=1))
     return 0
